@@ -138,7 +138,11 @@ pub fn nil_template(items: &[(u8, u16, u16, u16)], rootsel: u16) -> String {
     let mut s = format!("<r{}>", root_decl[scale(rootsel, root_decl.len())]);
     let decls = ["", " xmlns:xsi=\"urn:x\"", " xmlns:xsi=\"\"", " xmlns:n=\"urn:y\"", " xmlns:xsi=\"urn:x\" xmlns:n=\"urn:y\"", " xmlns=\"urn:d\""];
     let inners = ["", "t", "<zz/>", "<zz>t</zz>", "<zz><zz>x</zz></zz>", "<zz a=\"1\"/><zz b=\"2\"/>", "t<zz>u</zz>", "<e><e>x</e></e>", "<b/><c/>", "<zz xmlns:xsi=\"urn:z\"><zz/></zz>", "<![CDATA[c]]><zz/>"];
-    let nils = ["", " xsi:nil=\"true\"", " n:nil=\"true\"", " xsi:nil=\"false\"", " xsi:nil=\"1\"", " nil=\"true\""];
+    let nils = [
+        "", " xsi:nil=\"true\"", " n:nil=\"true\"", " xsi:nil=\"false\"", " xsi:nil=\"1\"", " nil=\"true\"",
+        // a second attribute of the XSI namespace next to the nil attribute, in both orders
+        " xsi:type=\"T\" xsi:nil=\"true\"", " xsi:nil=\"true\" xsi:type=\"T\"", " n:schemaLocation=\"u v\" n:nil=\"true\"", " xsi:nil=\"false\" xsi:type='T'", " k=\"1\" xsi:nil='true' j=\"2\"", " nil=\"false\" xsi:nil=\"true\"",
+    ];
     let contents = ["2", "t", "", "<v>x</v>", "<Unit/>"];
     let names = ["a", "b", "c", "d"];
     for (kind, x, y, z) in items {
